@@ -4,7 +4,7 @@
    The model is of the REPAIRED code (fix: commits listed in known_findings.json); definitions
    with an `orig` flag keep the unchanged behaviour for the …_refuted witnesses.
    ext = IPv6HopByHop / IPv6Destination; ip6 = IPv6. *)
-From GP Require Import Base N6Lib Lip6Model Lip6Proofs Lip6Rt Lip6Rt2 Lip6Rt3 Lip6Rt4 Lip6Idem Lip6Layers Lip6xModel Lip6xProofs.
+From GP Require Import Base N6Lib Lip6Model Lip6Proofs Lip6Rt Lip6Rt2 Lip6Rt3 Lip6Rt4 Lip6Rt5 Lip6Fix Lip6Idem Lip6Layers Lip6xModel Lip6xProofs.
 Open Scope Z_scope.
 
 (* ------------------------------------------------------------------ C19 *)
@@ -378,3 +378,103 @@ Example C06_ip6_stale_layer_list_breaks :
   (match ip6_serialize_in [46] l [1; 2; 3] true true [] with
    | (Ok b, _) => n6_len b = 43 /\ snd (fst (ip6_decode_into ip6_fresh b)) <> Ok tt | _ => False end).
 Proof. vm_compute. repeat split; discriminate. Qed.
+
+(* ================================================================== C06 for IPv6, every case *)
+(* The missing case: a jumbogram whose layer already carries a hop-by-hop header.  FixLengths adds (or
+   resets) the jumbo option in that header; the guard is that the header still fits the wire format
+   with it (ext_okb of the header after addIPv6JumboOption: at most 2048 octets).  The bytes decode
+   without error or truncation flag, Length is 0, the payload comes back on the attached hop-by-hop
+   layer, IPv6.Payload is everything after the fixed header (known finding
+   ip6-jumbo-payload-includes-hbh), and all fields — the options up to padding, the jumbo option with
+   the length written — agree with the layer as FixLengths left it. *)
+Theorem C06_ip6_roundtrip_jumbo_hbh : forall l h payload junk, ip6_okb l = true -> p_hbh l = Some h ->
+  ext_okb (aj_ext h) = true -> bytes_ok payload -> 65535 < n6_len payload < 4294967296 - 4096 ->
+  exists bytes l2 h2,
+    ip6_roundtrip l payload junk = (Ok bytes, (l2, Ok tt, false)) /\
+    p_hbh l2 = Some h2 /\ e_payload h2 = payload /\ p_payload l2 = skipn 40 bytes /\
+    p_length l2 = 0 /\
+    ip6_fields l2 = ip6_fields (snd (ip6_serialize l payload true true junk)).
+Proof. exact ip6_roundtrip_jumbo_hbh. Qed.
+Print Assumptions C06_ip6_roundtrip_jumbo_hbh.
+
+(* The exact guard under which C06_ip6_roundtrip_statement holds of the code as it stands.  Outside
+   it the statement is false, by the three recorded findings (witnesses below and above):
+     no hop-by-hop header, empty payload           -> Length 0 is rejected   (ip6-zero-length-rejected)
+     hop-by-hop header + payload of 65536-hdr..65535 -> not serializable       (ip6-hbh-pushes-over-65535)
+     jumbogram                                     -> IPv6.Payload = header ++ payload, the payload itself
+                                                      is on the hop-by-hop layer (ip6-jumbo-payload-includes-hbh)
+   and a hop-by-hop header carrying a jumbo option in a packet that is no jumbogram is rejected by the
+   decoder (by design: RFC 2675). *)
+Definition ip6_rt_guard (l : ip6) (payload : list Z) : Prop :=
+  match p_hbh l with
+  | None => 1 <= n6_len payload < 4294967296 - 8
+  | Some h =>
+      if 65535 <? n6_len payload
+      then ext_okb (aj_ext h) = true /\ n6_len payload < 4294967296 - 4096
+      else no_jumbo (e_opts h) /\ ext_size h + n6_len payload <= 65535
+  end.
+
+Theorem C06_ip6_roundtrip_guarded : forall l payload junk, ip6_okb l = true -> bytes_ok payload -> ip6_rt_guard l payload ->
+  exists bytes l2,
+    ip6_roundtrip l payload junk = (Ok bytes, (l2, Ok tt, false)) /\
+    ip6_fields l2 = ip6_fields (snd (ip6_serialize l payload true true junk)) /\
+    (n6_len payload <= 65535 -> p_payload l2 = payload) /\
+    (65535 < n6_len payload -> exists h2, p_hbh l2 = Some h2 /\ e_payload h2 = payload).
+Proof.
+  intros l payload junk Hok Hp Hg. unfold ip6_rt_guard in Hg. destruct (p_hbh l) as [h|] eqn:Hh.
+  - destruct (65535 <? n6_len payload) eqn:EJ.
+    + destruct Hg as [Hj Hl]. destruct (ip6_roundtrip_jumbo_hbh l h payload junk Hok Hh Hj Hp ltac:(lia)) as (b & l2 & h2 & HR & H1 & H2 & _ & _ & HF).
+      exists b, l2. split; [exact HR|]. split; [exact HF|]. split; [intros HH; exfalso; lia|intros _; exists h2; split; assumption].
+    + destruct Hg as [Hnj Hfit]. destruct (ip6_roundtrip_hbh l h payload junk Hok Hh Hnj Hp Hfit) as (b & l2 & h2 & HR & H1 & _ & _ & _ & HF).
+      exists b, l2. split; [exact HR|]. split; [exact HF|]. split; [intros _; exact H1|intros HH; exfalso; lia].
+  - destruct (65535 <? n6_len payload) eqn:EJ.
+    + destruct (ip6_roundtrip_jumbo l payload junk Hok Hh Hp ltac:(lia)) as (b & l2 & h2 & jl & HR & _ & _ & H1 & H2 & _ & _ & _ & _ & HF).
+      exists b, l2. split; [exact HR|]. split; [exact HF|]. split; [intros HH; exfalso; lia|intros _; exists h2; split; assumption].
+    + destruct (ip6_roundtrip_nohbh l payload junk Hok Hh ltac:(lia)) as (b & l2 & HR & H1 & _ & HF & _).
+      exists b, l2. split; [exact HR|]. split; [exact HF|]. split; [intros _; exact H1|intros HH; exfalso; lia].
+Qed.
+Print Assumptions C06_ip6_roundtrip_guarded.
+
+Example C06_ip6_guard_nonvacuous :
+  ext_okb (aj_ext (mkExt 17 0 0 [mkTlv 5 0 0 [1; 2] 0 0] [] [])) = true /\
+  ip6_rt_guard (mkIp6 6 0 0 0 0 64 (repeat 1 16) (repeat 2 16) (Some (mkExt 17 0 0 [mkTlv 5 0 0 [1; 2] 0 0] [] [])) [] []) [1; 2; 3].
+Proof. split; [reflexivity|]. cbn. split; [intros o [<-|[]]; discriminate|vm_compute; discriminate]. Qed.
+
+(* the guard is tight: hop-by-hop header + payload just over 65535 octets is not serializable *)
+Theorem C06_ip6_hbh_over_65535_refuted : exists l payload, ip6_okb l = true /\ n6_len payload <= 65535 /\
+  fst (ip6_roundtrip l payload []) = Err 17.
+Proof.
+  exists (mkIp6 6 0 0 0 0 64 (repeat 1 16) (repeat 2 16) (Some (mkExt 59 0 0 [mkTlv 5 0 0 [1; 2] 0 0] [] [])) [] []), (repeat 0 (Z.to_nat 65530)).
+  vm_compute. repeat split. discriminate.
+Qed.
+
+(* the fixpoint clause of C06 for IPv6 (no jumbogram): serializing the DECODED layer again, over the
+   same payload, gives the same bytes — without hop-by-hop header, and with one (the decoded header
+   carries the padding as options and writes back exactly the bytes it was decoded from) *)
+Theorem C06_ip6_fixpoint_partial :
+  (forall l payload junk junk', ip6_okb l = true -> p_hbh l = None -> 1 <= n6_len payload <= 65535 ->
+     match ip6_roundtrip l payload junk with
+     | (Ok bytes, (l2, _, _)) => fst (ip6_serialize l2 payload true true junk') = Ok bytes
+     | _ => False
+     end) /\
+  (forall l h payload junk junk', ip6_okb l = true -> p_hbh l = Some h -> no_jumbo (e_opts h) ->
+     bytes_ok payload -> ext_size h + n6_len payload <= 65535 ->
+     match ip6_roundtrip l payload junk with
+     | (Ok bytes, (l2, _, _)) => fst (ip6_serialize l2 payload true true junk') = Ok bytes
+     | _ => False
+     end).
+Proof. split; [exact ip6_fixpoint_nohbh|exact ip6_fixpoint_hbh]. Qed.
+Print Assumptions C06_ip6_fixpoint_partial.
+
+(* ... and for a jumbogram whose hop-by-hop header was created by FixLengths: the decoded layer
+   (hop-by-hop header with the jumbo option carrying the length) serialized again over the payload
+   gives the same bytes.  Still tested only (harness clause C06:fixpoint): the fixpoint for a
+   jumbogram whose layer already carried a hop-by-hop header. *)
+Theorem C06_ip6_fixpoint_jumbo_partial : forall l payload junk junk', ip6_okb l = true -> p_hbh l = None ->
+  bytes_ok payload -> 65535 < n6_len payload < 4294967296 - 8 ->
+  match ip6_roundtrip l payload junk with
+  | (Ok bytes, (l2, _, _)) => fst (ip6_serialize l2 payload true true junk') = Ok bytes
+  | _ => False
+  end.
+Proof. exact ip6_fixpoint_jumbo. Qed.
+Print Assumptions C06_ip6_fixpoint_jumbo_partial.
